@@ -12,10 +12,12 @@ import (
 	"time"
 
 	sdk "github.com/cosmos/cosmos-sdk/types"
+	abci "github.com/tendermint/tendermint/abci/types"
 	"github.com/tendermint/tendermint/libs/log"
 
 	"github.com/ovrclk/akash/client"
 	"github.com/ovrclk/akash/client/broadcaster"
+	"github.com/ovrclk/akash/events"
 	"github.com/ovrclk/akash/manifest"
 	"github.com/ovrclk/akash/provider/cluster"
 	"github.com/ovrclk/akash/provider/event"
@@ -425,7 +427,30 @@ func (x *c20) leasePath(gi int) string {
 
 func pathOf(l mtypes.LeaseID) string { return fmt.Sprintf("%d/%d/%d", l.DSeq, l.GSeq, l.OSeq) }
 
+// viaChain takes a chain event the way it really reaches the provider: as the ABCI event the chain
+// emitted, turned back into a typed event by the provider's event parser (events.processEvent).  An
+// event the parser refuses is dropped, exactly as the real pipeline drops it.  Provider-internal events
+// (LeaseWon) are not chain events and pass unchanged.
+func (x *c20) viaChain(ev interface{}) (interface{}, bool) {
+	ce, ok := ev.(interface{ ToSDKEvent() sdk.Event })
+	if !ok {
+		return ev, true
+	}
+	typed, ok := events.VerifProcessEvent(abci.Event(ce.ToSDKEvent()))
+	if !ok {
+		x.r.Count("probe:chain-event-dropped-by-parser")
+		x.r.Logf("step %d: the provider's event parser dropped %T", x.s.Step, ev)
+		return nil, false
+	}
+	x.r.Count("probe:chain-event-through-parser")
+	return typed, true
+}
+
 func (x *c20) publish(ev interface{}) {
+	var ok bool
+	if ev, ok = x.viaChain(ev); !ok {
+		return
+	}
 	if !returnsPromptly(func() {
 		if err := x.bus.Publish(ev); err != nil {
 			panic(err)
@@ -837,6 +862,13 @@ func (x *c20) observe() *core.Violation {
 	// counts as certainly validated when it was accepted; one that was answered "no lease for deployment"
 	// although it is valid by the harness's own judgement may have been validated before that answer
 	// (the manager keeps it and announces it once a lease arrives - DESIGN.md S14), so it is admissible too.
+	for _, a := range now {
+		// C10 seen from the outside: what the provider hands on for deployment is a manifest it accepted,
+		// so its hash must be a version the chain recorded for this deployment at some time
+		if !x.wasOnChain(a.hash, 0, x.s.Step) {
+			return x.flag("C10/announced-manifest-never-on-chain", "manifest %x announced for lease %s (to be deployed) hashes to no version ever recorded on chain for the deployment", a.hash[:4], a.lease)
+		}
+	}
 	if len(now) > 0 {
 		var latestAccepted *mfSubmit
 		for _, s := range x.submits {
